@@ -1,9 +1,13 @@
 -------------------------- MODULE Aggregators_Trace --------------------------
 (* B2: validates recorded executions of the real aggregators against the        *)
 (* abstract machine of Aggregators.tla.  The log holds many traces; each begins  *)
-(* with a `reset` line {t, agg, prof}.  `sample{el}` and `trim{p, ret}` drive the *)
-(* abstract state, `obs{...}` carries what the public accessors of the real      *)
-(* aggregator returned at that moment and must be what the abstract state says.  *)
+(* with a `reset` line {t, agg, prof, base}.  `sample{el}` and `trim{p, ret}`     *)
+(* drive the abstract state, `obs{...}` carries what the public accessors of the *)
+(* real aggregator returned at that moment and must be what the abstract state   *)
+(* says; it is a stuttering step (AObserve) and may occur anywhere, any number   *)
+(* of times, on the one instance the trace is the life of.  `base` (decimal text, *)
+(* units) is the offset of a numerical trace: samples are read, and values are   *)
+(* reported, relative to it (Aggregators.tla, shift law).                        *)
 (* An event the specification cannot explain is recorded in `bad` (trace id,     *)
 (* line) and the rest of that trace is skipped.                                   *)
 EXTENDS Aggregators, Json
@@ -12,8 +16,8 @@ Trace == ndJsonDeserialize("trace.ndjson")
 TrNone == {}
 TrCfg == AccCfgOf(1)
 
-VARIABLES l, tid, agg, prof, bad
-tvars == <<ctr, sub, tbl, num, acc, l, tid, agg, prof, bad>>
+VARIABLES l, tid, agg, prof, nbase, bad
+tvars == <<ctr, sub, tbl, num, acc, l, tid, agg, prof, nbase, bad>>
 
 Ev == Trace[l]
 IsEv(e) == l <= Len(Trace) /\ Ev.event = e /\ l' = l + 1
@@ -23,16 +27,16 @@ NoDup(s) == Cardinality(RangeOf(s)) = Len(s)
 TReset ==
   /\ IsEv("reset")
   /\ ctr' = CtrInit /\ sub' = GridInit /\ tbl' = GridInit /\ num' = NumInit /\ acc' = AccInit
-  /\ tid' = Ev.t /\ agg' = Ev.agg /\ prof' = Ev.prof
+  /\ tid' = Ev.t /\ agg' = Ev.agg /\ prof' = Ev.prof /\ nbase' = BaseOfText(Ev.base)
 
 TSample ==
   /\ IsEv("sample")
   /\ CASE agg = "ctr" -> InDomain(Ev.el, 1) /\ ASampleCtr(Ev.el)
        [] agg = "sub" -> InDomain(Ev.el, 2) /\ ASampleSub(Ev.el)
        [] agg = "tbl" -> InDomain(Ev.el, 2) /\ ASampleTbl(Ev.el)
-       [] agg = "num" -> NumParse(Ev.el).c # "out" /\ ASampleNum(Ev.el)
+       [] agg = "num" -> NumParseB(Ev.el, nbase).c # "out" /\ ASampleNumB(Ev.el, nbase)
        [] agg = "acc" -> acc' = AccStep(AccCfgOf(prof), acc, Ev.el) /\ UNCHANGED <<ctr, sub, tbl, num>>
-  /\ UNCHANGED <<tid, agg, prof>>
+  /\ UNCHANGED <<tid, agg, prof, nbase>>
 
 \* Trim returns "the number of fields trimmed": at least the selected cells that existed,
 \* at most one per row x column position
@@ -41,7 +45,7 @@ TTrim ==
   /\ Ev.ret >= Cardinality(TblTrimmed(tbl, Ev.p))
   /\ Ev.ret <= Cardinality(GridAs(tbl)) * Cardinality(GridBs(tbl))
   /\ ATrimTbl(Ev.p)
-  /\ UNCHANGED <<tid, agg, prof>>
+  /\ UNCHANGED <<tid, agg, prof, nbase>>
 
 ObsCtrOK(o) ==
   /\ NoDup(o.items)
@@ -69,11 +73,12 @@ ObsTblOK(o) ==
        /\ \A i \in 1..Len(o.cols) : o.coltot[i] = GridColSum(tbl, o.cols[i])
        /\ o.sum = GridSum(tbl)
 
+\* every value is reported relative to the base (milli units), the standard deviation as it is
 ObsNumOK(o) ==
   /\ o.n = num.n /\ o.errors = num.err
   /\ num.n >= 1 =>
        /\ o.finite
-       /\ MeanOK(num, o.mean3)
+       /\ MeanOKs(num, o.mean3, NumSlack(num.n, nbase))
        /\ o.min3 = NumMin(num) /\ o.max3 = NumMax(num)
        /\ StandsAt(num, o.med3[1], MedianIdx(num.n), FALSE)
        /\ StandsAt(num, o.med3[2], MedianIdx(num.n), TRUE)
@@ -82,7 +87,7 @@ ObsNumOK(o) ==
             QuantDomain(num.n, o.q[i][1]) =>
               /\ StandsAt(num, o.q[i][2], QuantIdx(num.n, o.q[i][1]), FALSE)
               /\ StandsAt(num, o.q[i][3], QuantIdx(num.n, o.q[i][1]), TRUE)
-  /\ num.n >= 2 => SdOK(num, o.sd3)
+  /\ num.n >= 2 => SdOKs(num, o.sd3, NumSlack(num.n, nbase))
 
 ObsAccOK(o) ==
   /\ NoDup([i \in 1..Len(o.data) |-> o.data[i][1]])
@@ -94,7 +99,7 @@ TObs ==
   /\ IsEv("obs")
   /\ CASE agg = "ctr" -> ObsCtrOK(Ev) [] agg = "sub" -> ObsSubOK(Ev) [] agg = "tbl" -> ObsTblOK(Ev)
        [] agg = "num" -> ObsNumOK(Ev) [] agg = "acc" -> ObsAccOK(Ev)
-  /\ UNCHANGED <<ctr, sub, tbl, num, acc, tid, agg, prof>>
+  /\ AObserve /\ UNCHANGED <<tid, agg, prof, nbase>>
 
 TStep == TReset \/ TSample \/ TTrim \/ TObs
 
@@ -104,9 +109,9 @@ Skip ==
   /\ l <= Len(Trace) /\ ~ENABLED TStep
   /\ bad' = Append(bad, [t |-> tid, l |-> l])
   /\ l' = NextReset(l + 1)
-  /\ UNCHANGED <<ctr, sub, tbl, num, acc, tid, agg, prof>>
+  /\ UNCHANGED <<ctr, sub, tbl, num, acc, tid, agg, prof, nbase>>
 
-TInit == AInit /\ l = 1 /\ tid = 0 /\ agg = "none" /\ prof = 0 /\ bad = <<>>
+TInit == AInit /\ l = 1 /\ tid = 0 /\ agg = "none" /\ prof = 0 /\ nbase = BZero /\ bad = <<>>
 TNext == (TStep /\ UNCHANGED bad) \/ Skip
 TSpec == TInit /\ [][TNext]_tvars
 
